@@ -250,7 +250,7 @@ def run(ctx):
     if W is None:
         ctx.bad("R12.6", "worker", "the single command worker closure was not found", detail="ANCHOR-MISSING")
     else:
-        c11.worker_loop(ctx, A, W, "R12.6")
+        c11.worker_loop(ctx, A, W, "R12.6", drain_liveness=True)
 
     # ---- queued pairs always carry a fresh (pending) acknowledgement -----------------------------
     n_pairs = 0
